@@ -93,6 +93,9 @@ class Game():
         if start_addr + len(data) > 0x4300:
             raise ValueError('Data too large: {} bytes starting at {} exceeds '
                              '0x4300'.format(len(data), start_addr))
+        # (The data may be the live buffer of one of the regions, as
+        # returned by to_bytes(): write what it holds now.)
+        data = bytes(data)
         memmap = ((0x0, 0x2000, self.gfx._data),
                   (0x2000, 0x3000, self.map._data),
                   (0x3000, 0x3100, self.gff._data),
